@@ -89,10 +89,11 @@ impl Write for ScriptedWrite {
     }
 }
 #[derive(Clone)]
-pub struct ScriptedRead { data: Vec<u8>, off: usize, script: Vec<Beh>, pos: usize, tail: Beh, log: Vec<LogE> }
-impl ScriptedRead { fn new(data: &[u8], script: &[Beh], tail: Beh) -> Self { ScriptedRead { data: data.to_vec(), off: 0, script: script.to_vec(), pos: 0, tail, log: vec![] } } }
+pub struct ScriptedRead { data: Vec<u8>, off: usize, script: Vec<Beh>, pos: usize, tail: Beh, log: Vec<LogE>, max_calls: usize }
+impl ScriptedRead { fn new(data: &[u8], script: &[Beh], tail: Beh) -> Self { ScriptedRead { data: data.to_vec(), off: 0, script: script.to_vec(), pos: 0, tail, log: vec![], max_calls: usize::MAX } } }
 impl Read for ScriptedRead {
     fn read(&mut self, b: &mut [u8]) -> io::Result<usize> {
+        if self.log.len() >= self.max_calls { std::panic::panic_any(Livelock); }
         let beh = next_beh(&self.script, &mut self.pos, self.tail);
         let avail = b.len().min(self.data.len() - self.off);
         let (res, ret) = match beh {
@@ -465,6 +466,7 @@ fn mirror_reader(custom_io: bool, buf: usize, q: u32, lgwin: u32, src: &[u8], sc
 
 fn real_copy(ib: usize, ob: usize, q: u32, lgwin: u32, src: &[u8], rscript: &[Beh], rtail: Beh, wscript: &[Beh], wtail: Beh) -> Obs {
     let mut r = ScriptedRead::new(src, rscript, rtail);
+    r.max_calls = (LIMIT as usize) * 4; // (the copy function has no own buffer to count on: bound the wrapped streams)
     let mut w = ScriptedWrite::new(wscript, wtail, &[]);
     w.max_calls = (LIMIT as usize) * 4; // the drain loop is the only place that can spin on the sink
     let mut p = BrotliEncoderParams::default(); p.quality = q as i32; p.lgwin = lgwin as i32;
